@@ -23,7 +23,16 @@ EXPLANATION = (
     "hashes, and BadHashError / NotEnoughHashesError are never raised on the edge where the compared hashes are "
     "equal / the hash is present; (i) [C35 only, not adopted by C02] reads self[i] with i taken from the offer "
     "can raise IndexError after earlier stores of the same call, so the rollback handler must cover IndexError "
-    "(or the indices are range-checked on every path to the read). "
+    "(or the indices are range-checked on every path to the read); (j) [C35 only] the only thing set_hashes writes that "
+    "outlives the call is the journaled tree slots: every other object it (or a helper it calls, followed through the call "
+    "graph) stores into or calls a mutating method on - the per-level work lists, the journal - is created by the call itself, "
+    "decided by may-alias roots per depth (attribute of the tree incl. __dict__/getattr/setattr access, module or class level "
+    "state, a shared mutable default argument, an object that was stored into one of those); exempt are writes that no "
+    "rejection can follow (bookkeeping of an accepted offer) and an attribute that every call re-creates before it or anything "
+    "else reads it; (k) [C35 only] what set_hashes validates against (tree slots, first_leaf_num and any other attribute it or "
+    "its helpers read) is written by no other method of IncompleteHashTree / HashTree / the mixin than the constructors "
+    "(needed_hashes, needed_for, the index helpers, any added setter - a wrapper that goes through set_hashes is fine), and the "
+    "attributes are stored nowhere else in the package. "
     "Undecided: hash collision freedom; value-level equality of computed roots; that num_levels / the size of "
     "hashes_to_check equals the depth of the deepest node (an off-by-one there is an IndexError/NameError crash "
     "that rule (i) only turns into a rolled-back rejection when it is an IndexError; decided only when the work "
@@ -36,8 +45,14 @@ EXPLANATION = (
     "arguments is reported (the surviving value is still validated); the tag/argument order inside "
     "empty_leaf_hash (format compatibility, not soundness); include_leaf handling of needed_hashes; that the "
     "bottom row is padded to roundup_pow2(n) entries before the rows are built (without it trees with a "
-    "non-power-of-two leaf count are too short and every use raises IndexError).")
-TECHNIQUE = "static analysis: CFG must-follow / must-precede rules (rollback pairing R10), exception-class coverage, normal-form agreement"
+    "non-power-of-two leaf count are too short and every use raises IndexError); for (j): whether a rollback handler that "
+    "itself writes the state in question restores it (reported as ANALYSIS-ERROR), writes made only inside the handler, "
+    "mutation of the caller's own `hashes` / `leaves` maps, mutating methods outside the known list of container mutators "
+    "on a call-local alias of persistent state whose class is not in the package, state kept in closures or in other modules' "
+    "library objects; (j) takes the contract literally - a write-only counter that survives a rejection is reported too; "
+    "for (k): slot writes through a reference to the tree held by other modules (`tree[i] = h` outside hashtree.py).")
+TECHNIQUE = ("static analysis: CFG must-follow / must-precede rules (rollback pairing R10), exception-class coverage, normal-form "
+             "agreement, interprocedural may-alias roots of every mutated object (what outlives a call), who-may-write")
 
 MOD = "hashtree"
 SET = MOD + ":IncompleteHashTree.set_hashes"
@@ -678,6 +693,141 @@ def run(ctx: Context, P: str = "C35"):
                             "through: the hashes stored so far stay in the tree unvalidated, and a later offer that repeats one "
                             "of them is accepted without any check against the root" % (src(fn, x), sorted(hn9)))
 
+        # -- (j) nothing but journaled slots outlives a rejected call -------------------------------
+        A = _Outlives(idx)
+        with ctx.rule(P + ".10", "R10", "set_hashes: the only thing it writes that outlives the call is the journaled tree slots - "
+                      "its work lists and every other object it mutates (also inside the helpers it calls) are created by the call "
+                      "itself, not an attribute of the tree, module / class level state or a shared default argument - unless no "
+                      "rejection can follow the write", expected=5) as r:
+            env0 = A.entry_env(fn)
+            act0 = A.act(fn, env0)
+            effs = A.effects(fn, env0)
+            if A.undecided:
+                f_, n_, why = A.undecided[0]
+                raise AnalysisError("set_hashes: %s (%s)" % (why, f_.loc(n_)))
+            where = _node_of(cfg)
+            located, handler_roots = [], set()
+            for e in effs:
+                cn = where.get(id(e.node))
+                if cn is None:
+                    raise AnalysisError("set_hashes: cannot place %s in the control flow graph" % e.what)
+                located.append((e, cn))
+                if cn.id in hreach and e.kind != "slot":
+                    handler_roots |= {x for x in e.roots if _persistent(x)}
+            cls_methods = [m for c_ in fn.cls.mro() for m in c_.methods.values()]
+            closure = _self_closure(A.cg, fn)
+            excused = {}
+
+            def reinit_ok(attr):
+                """self.ATTR is re-created by every call before the call (or a helper) looks at it, and nothing else reads
+                it: what a rejected call leaves there is never seen again."""
+                if attr in excused:
+                    return excused[attr]
+                root = frozenset(["self." + attr])
+                st = {cn.id for (e, cn) in located if e.kind == "rebind" and e.roots == root and cn.id not in hreach
+                      and e.value is not None
+                      and not any((_persistent(x) and x not in root) or x.startswith("opaque:") for x in _allr(act0.ev(e.value)))}
+
+                def uses(n):
+                    for ex in node_exprs(n):
+                        for x in own_nodes(ex, into_lambda=True):
+                            if isinstance(x, ast.Attribute) and x.attr in (attr, "__dict__") and \
+                                    (isinstance(x.ctx, ast.Load) or _is_aug_target(fn, x)):
+                                return True
+                            if isinstance(x, ast.Call):
+                                if _by_name_access(x, attr):
+                                    return True
+                                if isinstance(x.func, ast.Attribute) and attr_path(x.func.value) == "self" and \
+                                        any(_loads_attr(A.cg, cal, attr) for cal in A.cg.resolve(fn, x)):
+                                    return True
+                    return False
+                ok = bool(st) and not find_path_avoiding(cfg, uses, gate_node=lambda n: n.id in st)
+                for m in cls_methods:
+                    if ok and m is not fn and m.name != "__init__" and m.qual not in closure and _loads_attr(A.cg, m, attr):
+                        ok = False
+                excused[attr] = ok
+                return ok
+
+            for (e, cn) in located:
+                if cn.id in hreach:
+                    continue
+                r.site(fn, e.node, e.what)
+                r.count(1)
+                if e.kind == "slot":
+                    continue           # tree slots: journaled and undone, rules (a) / (b)
+                bad = sorted(x for x in e.roots if _persistent(x))
+                opaque = sorted(x for x in e.roots if x.startswith("opaque:"))
+                if not bad and not opaque:
+                    continue
+                w = _rejection_follows(cfg, cn)
+                if w is None:
+                    continue           # bookkeeping of an accepted offer
+                if e.kind == "via-slot":
+                    raise AnalysisError("set_hashes: %s writes tree slots inside a helper; cannot pair that store with the "
+                                        "journal" % src(fn, e.node))
+                if not bad:
+                    raise AnalysisError("set_hashes: cannot decide whether the object changed by %s is created by this call (%s)"
+                                        % (e.what, ", ".join(opaque)))
+                for root in bad:
+                    if root.startswith("self.") and root != "self.*" and reinit_ok(root[5:]):
+                        continue
+                    if root in handler_roots or "self.*" in handler_roots:
+                        raise AnalysisError("set_hashes: %s changes %s and the rollback handler writes it as well; cannot decide "
+                                            "whether the handler restores it" % (e.what, root))
+                    what = ("the tree's contents other than by a journaled `self[i] = v`" if root in ("self", "self[]") else
+                            "%s, which outlives the call" % root)
+                    r.violation(fn, fn.loc(e.node), "%s changes %s, and the call can still be rejected afterwards (%s): the rollback "
+                                "handler resets only the journaled tree slots, so what a rejected offer put there stays behind - "
+                                "the tree's state is not what it was before the call, and the next set_hashes works on leftovers "
+                                "(pending nodes whose slots were rolled back to None: genuine hashes it asked for are refused with "
+                                "NotEnoughHashesError, or stale entries are skipped unvalidated)" % (e.what, what, w.brief()), w)
+
+        # -- (k) who may write what set_hashes validates against -------------------------------------
+        with ctx.rule(P + ".11", "R4", "what set_hashes validates against (the tree slots, first_leaf_num and every other attribute it "
+                      "or its helpers read) is written only by the constructors and by set_hashes' journaled stores: needed_hashes, "
+                      "the index helpers and every other method of the two tree classes leave it alone", expected=4) as r:
+            reads = set()
+            for f_ in _self_closure(A.cg, fn).values():
+                reads |= _self_attr_loads(f_)
+            reads = {a_ for a_ in reads if fn.cls.lookup(a_) is None and not (a_.startswith("__") and a_.endswith("__"))}
+            if not reads:
+                raise AnchorVanished("set_hashes: reads no attribute of the tree (first_leaf_num)")
+            guarded = {"self", "self[]", "self.*"} | {"self." + a_ for a_ in reads}
+            done = set()
+            tree_classes = set()
+            for cname in ("IncompleteHashTree", "HashTree"):
+                for c_ in idx.cls(MOD + ":" + cname).mro():
+                    tree_classes.add(c_.qual)
+                    for m in c_.methods.values():
+                        if m.name in ("__init__", "set_hashes") or m.qual in done:
+                            continue
+                        done.add(m.qual)
+                        r.site(m, None)
+                        n0 = len(A.undecided)
+                        for e in A.effects(m, A.entry_env(m), stop=("set_hashes",)):
+                            r.count(1)
+                            hit = sorted(x for x in e.roots if x in guarded)
+                            if hit:
+                                r.violation(m, m.loc(e.node), "%s changes %s outside the constructor and outside set_hashes' "
+                                            "journaled stores: set_hashes validates offered hashes against this state, so a hash "
+                                            "(or tree shape) that was never checked against the trusted root is taken as known - "
+                                            "or a validated one is lost and genuine hashes are refused" % (
+                                                e.what, ", ".join("the tree slots" if x in ("self", "self[]") else x for x in hit)))
+                        if len(A.undecided) > n0:
+                            f_, n_, why = A.undecided[n0]
+                            raise AnalysisError("%s: %s (%s)" % (short(m), why, f_.loc(n_)))
+            for a_ in sorted(reads):
+                for (f_, node) in A.cg.attr_stores(a_):
+                    own = attr_path(node.value) == "self" and f_.cls is not None
+                    if own and f_.cls.qual not in tree_classes:
+                        continue        # another class's attribute of the same name
+                    if own and f_.name == "__init__":
+                        continue
+                    if own and (f_.qual in done or f_ is fn):
+                        continue        # reported above / set_hashes' own writes: rule (j)
+                    r.violation(f_, f_.loc(node), "%s is stored outside the constructors of the tree classes: set_hashes and "
+                                "needed_hashes compute leaf positions from it" % src(f_, node))
+
 
 def _const(fn, e):
     try:
@@ -920,3 +1070,668 @@ def _first_stmt(cfg, n):
 def _is_while_head(cfg, n):
     # a Pass node with a back edge into it
     return any(s > n.id for (s, _l) in cfg.pred[n.id])
+
+
+# ---------------------------------------------------------------------------------------------------------------
+# (j) / (k)  what outlives a call: may-alias roots of every object that is written
+#
+# A value is described by four root sets (L0, L1, L2, L3): what the object itself may be, what the things one / two /
+# three-or-more steps away from it (elements, attributes) may be - so a new list of new sets of old numbers is told from a
+# new list of old sets.  Roots: "self" (the tree object of the entry activation), "self[]" (its slots), "self.NAME" (an attribute
+# object and everything reachable from it), "self.*" (some attribute: getattr / vars / __dict__), "global:MOD.NAME"
+# (module or class level state), "default:F.P" (a mutable default argument), "param:NAME" (the caller's object:
+# outlives the call but is not the tree's state), "opaque:.." (not understood).  An empty L0 = created in this call.
+# Every root but "self" stands for the object and everything reachable from it.
+# ---------------------------------------------------------------------------------------------------------------
+import builtins as _bi
+from collections import namedtuple as _nt
+
+_E = frozenset()
+_NONE = (_E, _E, _E, _E)
+_MAXD = 5
+_MUTATORS = {"add", "discard", "remove", "pop", "clear", "update", "append", "extend", "insert", "setdefault", "popitem",
+             "sort", "reverse", "appendleft", "popleft", "extendleft", "rotate", "move_to_end", "difference_update",
+             "intersection_update", "symmetric_difference_update", "__setitem__", "__delitem__", "__iadd__", "__imul__",
+             "__ior__", "__setattr__", "__delattr__", "push", "put", "put_nowait", "get_nowait", "subtract"}
+_ADDERS = {"add", "append", "extend", "insert", "update", "setdefault", "appendleft", "extendleft", "__setitem__", "push", "put"}
+_SHALLOW = {"list", "set", "dict", "tuple", "frozenset", "sorted", "reversed", "enumerate", "zip", "iter", "filter", "map"}
+_SCALAR = {"len", "int", "str", "bytes", "bool", "abs", "isinstance", "issubclass", "range", "repr", "hash", "id", "type",
+           "ord", "chr", "divmod", "pow", "round", "any", "all", "float", "hasattr", "callable", "print", "hex", "bin",
+           "oct", "format", "bytearray", "object", "super"}
+_ELEMWISE = {"next", "min", "max", "sum"}
+_PURE_METHODS = {"get", "keys", "values", "items", "copy", "index", "count", "join", "format", "startswith", "endswith",
+                 "encode", "decode", "hex", "digest", "hexdigest", "issubset", "issuperset", "union", "intersection",
+                 "difference", "symmetric_difference", "isdisjoint", "split", "strip", "lstrip", "rstrip", "lower", "upper",
+                 "replace", "bit_length", "most_common", "__contains__", "__len__", "__getitem__", "__iter__", "__eq__"}
+_EXT_MUT = {"heappush", "heappop", "heapify", "heapreplace", "heappushpop", "insort", "insort_left", "insort_right", "shuffle"}
+
+_Eff = _nt("_Eff", "fn node roots what kind value")
+
+
+def _persistent(r) -> bool:
+    return r == "self" or r.startswith(("self.", "self[", "global:", "default:"))
+
+
+def _u(*vals):
+    if not vals:
+        return _NONE
+    return tuple(frozenset().union(*[v[k] for v in vals]) for k in range(4))
+
+
+def _proj(roots, what):
+    return frozenset(("self" + what) if r == "self" else r for r in roots)
+
+
+def _allr(v):
+    return v[0] | v[1] | v[2] | v[3]
+
+
+def _flat(x):
+    x = frozenset(x)
+    return (x, x, x, x)
+
+
+def _elems(v):
+    return (_proj(v[0], "[]") | v[1], v[2], v[3], v[3])
+
+
+def _attr(v, a):
+    return (_proj(v[0], "." + a) | v[1], v[2], v[3], v[3])
+
+
+def _box(v):
+    """A new object that holds v."""
+    return (_E, v[0], v[1], v[2] | v[3])
+
+
+def _shallow(v):
+    """A new container with the elements of v."""
+    return _box(_elems(v))
+
+
+def _items(v):
+    """A new sequence of new tuples that hold the elements of v (dict.items(), enumerate, zip)."""
+    return _box(_box(_elems(v)))
+
+
+def _base_name(t):
+    while isinstance(t, (ast.Attribute, ast.Subscript, ast.Starred)):
+        t = t.value
+    return t.id if isinstance(t, ast.Name) else None
+
+
+def _dict_of(e):
+    """X for the expressions `X.__dict__` and `vars(X)` (the attribute namespace of X), else None."""
+    if isinstance(e, ast.Attribute) and e.attr == "__dict__":
+        return e.value
+    if isinstance(e, ast.Call) and isinstance(e.func, ast.Name) and e.func.id == "vars" and len(e.args) == 1 and not e.keywords:
+        return e.args[0]
+    return None
+
+
+def _const_str(e):
+    return e.value if isinstance(e, ast.Constant) and isinstance(e.value, str) else None
+
+
+def _steps(t) -> int:
+    """Number of element / attribute steps between the base name and the expression t."""
+    k = 0
+    while isinstance(t, (ast.Attribute, ast.Subscript, ast.Starred)):
+        k += 0 if isinstance(t, ast.Starred) else 1
+        t = t.value
+    return k
+
+
+
+def _flat_targets(ts):
+    out = []
+    for t in ts:
+        if isinstance(t, (ast.Tuple, ast.List)):
+            out.extend(_flat_targets(t.elts))
+        elif isinstance(t, ast.Starred):
+            out.extend(_flat_targets([t.value]))
+        elif t is not None:
+            out.append(t)
+    return out
+
+
+def _store_targets(n):
+    if isinstance(n, ast.Assign):
+        return n.targets
+    if isinstance(n, (ast.AugAssign, ast.NamedExpr)):
+        return [n.target]
+    if isinstance(n, ast.AnnAssign):
+        return [n.target] if n.value is not None else []
+    if isinstance(n, ast.Delete):
+        return n.targets
+    if isinstance(n, (ast.For, ast.AsyncFor, ast.comprehension)):
+        return [n.target]
+    if isinstance(n, (ast.With, ast.AsyncWith)):
+        return [i.optional_vars for i in n.items if i.optional_vars is not None]
+    return []
+
+
+class _Act:
+    """May-alias facts of one activation of `fn` whose parameters hold the values `env`."""
+
+    def __init__(self, A, fn, env, depth=0, outer=None):
+        self.A, self.fn, self.env, self.depth, self.outer = A, fn, env, depth, outer
+        self.mod = fn.module
+        self.params = set(fn.params)
+        self.gdecl = set()
+        self.binds = {}
+        for n in func_own_nodes(fn):
+            self._collect(n)
+        self.table = {k: _NONE for k in self.binds}
+        # names bound by this activation (a name that only has things stored INTO it may be a global or a parameter)
+        self.assigned = {k for k, bs in self.binds.items() if any(not isinstance(kind, tuple) for (kind, _e) in bs)}
+        for _round in range(12):
+            changed = False
+            for k, bs in self.binds.items():
+                v = self.table[k]
+                for (kind, e) in bs:
+                    if kind == "code":
+                        continue
+                    x = self.ev(e)
+                    if isinstance(kind, tuple):
+                        if kind[0] == "aug":
+                            x = _shallow(x)
+                        for _k in range(kind[1]):
+                            x = _box(x)
+                    else:
+                        for _k in range(kind):
+                            x = _elems(x)
+                    v = _u(v, x)
+                if v != self.table[k]:
+                    self.table[k] = v
+                    changed = True
+            if not changed:
+                break
+
+    def _add(self, name, kind, e):
+        self.binds.setdefault(name, []).append((kind, e))
+
+    def _bind(self, t, v, kind):
+        if isinstance(t, ast.Name):
+            self._add(t.id, kind, v)
+        elif isinstance(t, (ast.Tuple, ast.List)):
+            if kind == 0 and isinstance(v, (ast.Tuple, ast.List)) and len(v.elts) == len(t.elts) \
+                    and not any(isinstance(x, ast.Starred) for x in list(v.elts) + list(t.elts)):
+                for tt, vv in zip(t.elts, v.elts):
+                    self._bind(tt, vv, 0)
+            else:
+                for tt in t.elts:
+                    self._bind(tt, v, kind + 1)
+        elif isinstance(t, ast.Starred):
+            self._bind(t.value, v, kind)
+        elif isinstance(t, (ast.Attribute, ast.Subscript)):
+            self._into(t, _steps(t), v)
+
+    def _into(self, where, steps, v):
+        """v is stored `steps` steps below the base name of `where`.  What is stored into the tree object itself is
+        tracked by the root names (self.NAME / self[]), not here; and an object that is stored somewhere is from then on
+        also what lives there (it escapes: `w = []; self.x = w; w.append(..)` changes self.x)."""
+        b = _base_name(where)
+        if b is None or v is None:
+            return
+        if not (b == "self" and self.fn.cls is not None and self.fn.params[:1] == ["self"]):
+            self._add(b, ("into", steps), v)
+        if isinstance(v, ast.Name):
+            self._add(v.id, ("alias", 0), where)
+
+    def _collect(self, n):
+        if isinstance(n, ast.Assign):
+            for t in n.targets:
+                self._bind(t, n.value, 0)
+        elif isinstance(n, ast.AnnAssign) and n.value is not None:
+            self._bind(n.target, n.value, 0)
+        elif isinstance(n, ast.AugAssign):
+            if isinstance(n.target, ast.Name):
+                self._add(n.target.id, ("aug", 0), n.value)       # x += [..]: x keeps its identity and gains elements
+            else:
+                self._into(n.target, _steps(n.target) + 1, n.value)
+        elif isinstance(n, (ast.For, ast.AsyncFor, ast.comprehension)):
+            self._bind(n.target, n.iter, 1)
+        elif isinstance(n, (ast.With, ast.AsyncWith)):
+            for it in n.items:
+                if it.optional_vars is not None:
+                    self._bind(it.optional_vars, it.context_expr, 0)
+        elif isinstance(n, ast.NamedExpr):
+            self._bind(n.target, n.value, 0)
+        elif isinstance(n, (ast.Global, ast.Nonlocal)):
+            self.gdecl |= set(n.names)
+        elif isinstance(n, (ast.Import, ast.ImportFrom)):
+            for al in n.names:
+                self._add((al.asname or al.name).split(".")[0], "code", None)
+        elif isinstance(n, ast.ExceptHandler) and n.name:
+            self._add(n.name, "code", None)
+        elif isinstance(n, (ast.FunctionDef, ast.AsyncFunctionDef, ast.ClassDef)):
+            self._add(n.name, "code", None)
+        elif isinstance(n, ast.Call) and isinstance(n.func, ast.Attribute) and n.func.attr in _ADDERS:
+            for a in list(n.args) + [k.value for k in n.keywords]:
+                self._into(ast.Subscript(value=n.func.value, slice=ast.Constant(value=0), ctx=ast.Load()),
+                           _steps(n.func.value) + 1, a)
+
+    # ------------------------------------------------------------------ names
+    def is_local(self, nm) -> bool:
+        return (nm in self.assigned and nm not in self.gdecl) or nm in self.params
+
+    def name(self, nm):
+        v, found = _NONE, False
+        if nm in self.table and nm not in self.gdecl:
+            v, found = _u(v, self.table[nm]), nm in self.assigned
+        if nm in self.params:
+            v, found = _u(v, self.env.get(nm, _NONE)), True
+        if found:
+            return v
+        if self.outer is not None and self.outer.is_local(nm):
+            return _u(v, self.outer.name(nm))
+        return _u(v, self.A.global_name(self.mod, nm))
+
+    # ------------------------------------------------------------ expressions
+    def ev(self, e):
+        if e is None or isinstance(e, (ast.Constant, ast.JoinedStr, ast.Compare, ast.Lambda, ast.Slice, ast.FormattedValue)):
+            return _NONE
+        if isinstance(e, ast.Name):
+            return self.name(e.id)
+        if isinstance(e, ast.Attribute):
+            return _attr(self.ev(e.value), "*" if e.attr == "__dict__" else e.attr)
+        if isinstance(e, ast.Subscript) and _dict_of(e.value) is not None and _const_str(e.slice) is not None:
+            return _attr(self.ev(_dict_of(e.value)), _const_str(e.slice))          # X.__dict__["name"] is X.name
+        if isinstance(e, (ast.Subscript, ast.Starred)):
+            return _elems(self.ev(e.value))
+        if isinstance(e, (ast.List, ast.Tuple, ast.Set)):
+            return _u(*[_box(self.ev(x)) for x in e.elts])
+        if isinstance(e, ast.Dict):
+            parts = []
+            for (k, x) in zip(e.keys, e.values):
+                parts.extend([_shallow(self.ev(x))] if k is None else [_box(self.ev(k)), _box(self.ev(x))])
+            return _u(*parts)
+        if isinstance(e, (ast.ListComp, ast.SetComp, ast.GeneratorExp)):
+            return _box(self.ev(e.elt))
+        if isinstance(e, ast.DictComp):
+            return _u(_box(self.ev(e.key)), _box(self.ev(e.value)))
+        if isinstance(e, ast.BoolOp):
+            return _u(*[self.ev(x) for x in e.values])
+        if isinstance(e, ast.IfExp):
+            return _u(self.ev(e.body), self.ev(e.orelse))
+        if isinstance(e, ast.NamedExpr):
+            return self.ev(e.value)
+        if isinstance(e, ast.UnaryOp):
+            return _NONE
+        if isinstance(e, ast.BinOp):
+            return _u(_shallow(self.ev(e.left)), _shallow(self.ev(e.right)))     # a new object with the elements of both
+        if isinstance(e, ast.Call):
+            return self.call(e)
+        parts = [self.ev(x) for x in ast.iter_child_nodes(e) if isinstance(x, ast.expr)]
+        return _flat(frozenset().union(*[_allr(p) for p in parts]) if parts else _E)
+
+    def _args(self, c):
+        return [self.ev(a) for a in c.args] + [self.ev(k.value) for k in c.keywords]
+
+    def callee_env(self, callee, c, recv=None):
+        a = callee.node.args
+        pos = [x.arg for x in list(getattr(a, "posonlyargs", [])) + list(a.args)]
+        every = set(callee.params)
+        env = {}
+        i0 = 0
+        if recv is not None and pos:
+            env[pos[0]] = recv
+            i0 = 1
+        for k, x in enumerate(c.args):
+            v = self.ev(x)
+            if isinstance(x, ast.Starred):
+                for p in pos[i0 + k:]:
+                    env[p] = _u(env.get(p, _NONE), v)
+                if a.vararg:
+                    env[a.vararg.arg] = _u(env.get(a.vararg.arg, _NONE), _box(v))
+                break
+            if i0 + k < len(pos):
+                env[pos[i0 + k]] = v
+            elif a.vararg:
+                env[a.vararg.arg] = _u(env.get(a.vararg.arg, _NONE), _box(v))
+        for kw in c.keywords:
+            v = self.ev(kw.value)
+            if kw.arg is not None and kw.arg in every:
+                env[kw.arg] = v
+            elif kw.arg is None:
+                for p in every:
+                    env[p] = _u(env.get(p, _NONE), _elems(v))
+            elif a.kwarg:
+                env[a.kwarg.arg] = _u(env.get(a.kwarg.arg, _NONE), _box(v))
+        for (p, d) in _param_defaults(callee):
+            if p not in env:
+                env[p] = _default_value(callee, p, d)
+        return env
+
+    def resolve(self, c):
+        """(package functions the call may run, value of the receiver bound to their first parameter or None),
+        "class" for a constructor of a package class, "ext" for a library callable, None = not understood."""
+        f = c.func
+        idx = self.A.idx
+        if isinstance(f, ast.Name):
+            if self.is_local(f.id) or (self.outer is not None and self.outer.is_local(f.id)):
+                p = self.fn
+                while p is not None:
+                    if f.id in p.nested:
+                        return ([p.nested[f.id]], None)
+                    p = p.parent
+                return None
+            r = idx.resolve_name(self.mod, f.id)
+            if isinstance(r, FuncInfo):
+                return ([r], None)
+            if isinstance(r, ClassInfo):
+                return "class"
+            if f.id in self.mod.imports or (hasattr(_bi, f.id) and f.id not in self.mod.assigns):
+                return "ext"
+            return None
+        if isinstance(f, ast.Attribute):
+            b = _base_name(f)
+            if isinstance(f.value, ast.Name) and f.value.id in ("self", "cls") and self.fn.cls is not None \
+                    and f.value.id in self.params and f.value.id not in self.assigned:
+                got = self.A.cg.resolve(self.fn, c) if f.value.id == "self" else \
+                    [m for m in [self.fn.cls.lookup(f.attr)] if m is not None]
+                if got:
+                    return (got, self.ev(f.value))
+                return None
+            if b is not None and not self.is_local(b) and not (self.outer is not None and self.outer.is_local(b)) \
+                    and attr_path(f) is not None:
+                r = idx.resolve_expr(self.mod, f)
+                if isinstance(r, FuncInfo):
+                    return ([r], None)
+                if isinstance(r, ClassInfo):
+                    return "class"
+                if b in self.mod.imports and idx.resolve_name(self.mod, b) is None:
+                    return "ext"
+                base = idx.resolve_expr(self.mod, f.value)
+                if r is None and base is not None and hasattr(base, "imports") and f.attr in base.imports \
+                        and not base.imports[f.attr].startswith("allmydata"):
+                    return "ext"      # a library function re-exported by a package module
+        return None
+
+    def call(self, c):
+        f = c.func
+        argv = self._args(c)
+        allr = frozenset().union(*[_allr(v) for v in argv]) if argv else _E
+        held = _u(*[_box(v) for v in argv])           # a new object that may keep its arguments
+        r = self.resolve(c)
+        if isinstance(r, tuple):
+            return _u(*[self.A.returns(cal, self.callee_env(cal, c, r[1]), self.depth + 1,
+                                       self if cal.parent is self.fn else None) for cal in r[0]])
+        if r == "class":
+            return held
+        if isinstance(f, ast.Name):
+            nm = f.id
+            if r == "ext" and nm not in self.mod.imports:
+                if nm in ("enumerate", "zip"):
+                    return _u(*[_items(v) for v in argv])
+                if nm in _SHALLOW:
+                    return _u(*[_shallow(v) for v in argv])
+                if nm in _SCALAR:
+                    return _NONE
+                if nm in ("getattr", "vars") and argv:
+                    a1 = c.args[1] if len(c.args) > 1 else None
+                    an = a1.value if isinstance(a1, ast.Constant) and isinstance(a1.value, str) else "*"
+                    return _u(_attr(argv[0], an), *argv[2:])
+                if nm in ("globals", "locals"):
+                    return _flat(["global:%s.*" % self.mod.name])
+                if nm in _ELEMWISE:
+                    return _u(*[_elems(v) for v in argv])
+                return _flat(allr)
+            if r == "ext":
+                return held
+            return _flat(allr | frozenset(["opaque:" + nm]))
+        if isinstance(f, ast.Attribute):
+            if r == "ext":
+                return held
+            rv = self.ev(f.value)
+            m = f.attr
+            if m in ("copy", "keys", "values"):
+                return _shallow(rv)
+            if m == "items":
+                return _items(rv)
+            if m in ("get", "pop", "setdefault", "__getitem__") and _dict_of(f.value) is not None and c.args \
+                    and _const_str(c.args[0]) is not None:
+                return _u(_attr(self.ev(_dict_of(f.value)), _const_str(c.args[0])), *argv[1:])
+            if m in ("get", "pop", "setdefault", "popitem", "__getitem__"):
+                return _u(_elems(rv), *argv)
+            return _flat(_allr(rv) | allr)
+        return _flat(_allr(self.ev(f)) | allr | frozenset(["opaque:call"]))
+
+
+def _param_defaults(fn):
+    a = fn.node.args
+    pos = list(getattr(a, "posonlyargs", [])) + list(a.args)
+    out = []
+    nd = len(a.defaults)
+    for k, p in enumerate(pos):
+        j = k - (len(pos) - nd)
+        out.append((p.arg, a.defaults[j] if j >= 0 else None))
+    for p, d in zip(a.kwonlyargs, a.kw_defaults):
+        out.append((p.arg, d))
+    return out
+
+
+def _default_value(fn, p, d):
+    """Value of parameter p when the caller leaves it out: a default that is not a constant is one object shared by
+    all calls."""
+    if d is None or isinstance(d, ast.Constant) or (isinstance(d, ast.Tuple) and not d.elts) \
+            or (isinstance(d, ast.UnaryOp) and isinstance(d.operand, ast.Constant)):
+        return _NONE
+    return _flat(["default:%s.%s" % (short(fn), p)])
+
+
+class _Outlives:
+    def __init__(self, idx):
+        self.idx = idx
+        self.cg = get_callgraph(idx)
+        self._ret, self._eff, self._busy = {}, {}, set()
+        self.undecided = []
+
+    @staticmethod
+    def _key(fn, env):
+        return (fn.qual, tuple(sorted((k, tuple(tuple(sorted(x)) for x in v)) for k, v in env.items())))
+
+    def global_name(self, mod, nm):
+        if nm in mod.funcs:
+            return _NONE
+        g = _flat(["global:%s.%s" % (mod.name, nm)])
+        if nm in mod.classes or nm in mod.assigns:
+            return g
+        if nm in mod.imports:
+            return _NONE if isinstance(self.idx.resolve_dotted(mod.imports[nm]), FuncInfo) else g
+        if hasattr(_bi, nm):
+            return _NONE
+        return g
+
+    def entry_env(self, fn):
+        env = {}
+        for k, (p, d) in enumerate(_param_defaults(fn)):
+            if k == 0 and fn.cls is not None and p == "self":
+                env[p] = (frozenset(["self"]), _E, _E, _E)
+            else:
+                env[p] = _u(_flat(["param:" + p]), _default_value(fn, p, d))
+        for p in fn.params:
+            if p not in env:
+                env[p] = _flat(["param:" + p])
+        return env
+
+    def act(self, fn, env, depth=0, outer=None):
+        return _Act(self, fn, env, depth, outer)
+
+    def returns(self, fn, env, depth, outer=None):
+        key = self._key(fn, env)
+        if key in self._ret:
+            return self._ret[key]
+        plain = [d for d in fn.decorators() if attr_path(d) not in ("staticmethod", "classmethod")]
+        if depth > _MAXD or plain:
+            return _flat(["opaque:" + short(fn)])
+        if ("r", key) in self._busy:
+            return _NONE
+        self._busy.add(("r", key))
+        try:
+            a = _Act(self, fn, env, depth, outer)
+            v = _NONE
+            if isinstance(fn.node, ast.Lambda):
+                v = a.ev(fn.node.body)
+            for n in func_own_nodes(fn):
+                if isinstance(n, ast.Return) and n.value is not None:
+                    v = _u(v, a.ev(n.value))
+                elif isinstance(n, (ast.Yield, ast.YieldFrom)) and n.value is not None:
+                    v = _u(v, _box(a.ev(n.value)))
+        finally:
+            self._busy.discard(("r", key))
+        self._ret[key] = v
+        return v
+
+    def effects(self, fn, env, depth=0, outer=None, stop=()):
+        """Every write the activation may perform, as _Eff(fn, node of fn, roots written, description, kind, value):
+        kind `slot` = plain `self[i] = v`, `rebind` = `X.attr = v`, `store` = other subscript / attribute / global
+        stores, `call` = mutating method or library call, `via` / `via-slot` = inside a callee (node = the call)."""
+        key = self._key(fn, env) + (tuple(stop),)
+        if key in self._eff:
+            return self._eff[key]
+        if ("e", key) in self._busy:
+            return []
+        self._busy.add(("e", key))
+        try:
+            out = self._effects(fn, _Act(self, fn, env, depth, outer), depth, stop)
+        finally:
+            self._busy.discard(("e", key))
+        self._eff[key] = out
+        return out
+
+    def _effects(self, fn, a, depth, stop):
+        out = []
+        for n in func_own_nodes(fn):
+            for t in _flat_targets(_store_targets(n)):
+                plain = isinstance(n, (ast.Assign, ast.AnnAssign))
+                if isinstance(t, ast.Name):
+                    if t.id in a.gdecl:
+                        out.append(_Eff(fn, n, frozenset(["global:%s.%s" % (fn.module.name, t.id)]),
+                                        "store to the global name %s" % t.id, "store", None))
+                elif isinstance(t, ast.Attribute):
+                    rv = a.ev(t.value)
+                    out.append(_Eff(fn, n, _proj(rv[0], "." + t.attr), "store %s" % src(fn, t),
+                                    "rebind" if plain else "store", getattr(n, "value", None) if plain else None))
+                elif isinstance(t, ast.Subscript):
+                    rv = a.ev(t.value)
+                    roots = _proj(rv[0], "[]")
+                    if _dict_of(t.value) is not None and _const_str(t.slice) is not None:
+                        roots = _proj(a.ev(_dict_of(t.value))[0], "." + _const_str(t.slice))
+                    slot = isinstance(n, ast.Assign) and isinstance(t.value, ast.Name) and rv[0] == frozenset(["self"])
+                    out.append(_Eff(fn, n, roots, "store %s" % src(fn, t), "slot" if slot else "store", None))
+            if not isinstance(n, ast.Call):
+                continue
+            f = n.func
+            r = a.resolve(n)
+            tail = call_tail(n)
+            if isinstance(r, tuple):
+                for cal in r[0]:
+                    if cal.name in stop:
+                        continue
+                    cenv = a.callee_env(cal, n, r[1])
+                    if depth + 1 > _MAXD:
+                        if any(_persistent(x) for v in cenv.values() for x in v[0]):
+                            self.undecided.append((fn, n, "call chain below %s is too deep to follow" % src(fn, n)))
+                        continue
+                    for e in self.effects(cal, cenv, depth + 1, a if cal.parent is fn else None, stop):
+                        if e.roots:
+                            out.append(_Eff(fn, n, e.roots, "%s in %s" % (e.what, short(cal)) if e.kind not in ("via", "via-slot")
+                                            else e.what, "via-slot" if e.kind in ("slot", "via-slot") else "via", None))
+                continue
+            if isinstance(f, ast.Name) and r == "ext" and f.id in ("setattr", "delattr") and n.args:
+                nm = n.args[1].value if len(n.args) > 1 and isinstance(n.args[1], ast.Constant) else "*"
+                out.append(_Eff(fn, n, _proj(a.ev(n.args[0])[0], ".%s" % nm), "%s(..)" % f.id, "call", None))
+                continue
+            if tail in _EXT_MUT and n.args and (r == "ext" or r is None):
+                out.append(_Eff(fn, n, _proj(a.ev(n.args[0])[0], "[]"), "%s(%s, ..)" % (tail, src(fn, n.args[0])), "call", None))
+                continue
+            if isinstance(f, ast.Attribute) and r is None:
+                rv = a.ev(f.value)
+                if f.attr in _MUTATORS:
+                    roots = _proj(rv[0], "[]")
+                    if _dict_of(f.value) is not None and n.args and _const_str(n.args[0]) is not None \
+                            and f.attr in ("setdefault", "pop", "__setitem__", "__delitem__"):
+                        roots = _proj(a.ev(_dict_of(f.value))[0], "." + _const_str(n.args[0]))
+                    out.append(_Eff(fn, n, roots, "%s.%s(..)" % (src(fn, f.value), f.attr), "call", None))
+                elif f.attr not in _PURE_METHODS and any(_persistent(x) or x.startswith("opaque:") for x in rv[0]):
+                    self.undecided.append((fn, n, "cannot decide whether %s.%s(..) changes %s" % (
+                        src(fn, f.value), f.attr, sorted(rv[0]))))
+        return out
+
+
+def _node_of(cfg):
+    m = {}
+    for n in cfg.nodes:
+        if n.ast is None:
+            continue
+        if n.kind == "iter":
+            m[id(n.ast)] = n
+        for e in node_exprs(n):
+            for x in own_nodes(e, into_lambda=True):
+                m.setdefault(id(x), n)
+    return m
+
+
+def _rejection_follows(cfg, node):
+    """Can the call still be rejected (an exception leaves the function) after `node` has completed?"""
+    def tr(n, lab, nxt, st):
+        return None if (n is node and lab == "exc" and st == 0) else 1
+    visited, parent = explore(cfg, 0, tr, start=node)
+    for (nid, st) in sorted(visited):
+        if nid == cfg.raise_exit.id:
+            return witness(cfg, parent, (nid, st))
+    return None
+
+
+def _by_name_access(call, attr) -> bool:
+    """getattr / hasattr / vars call that may look at the attribute `attr`."""
+    if not (isinstance(call.func, ast.Name) and call.func.id in ("getattr", "hasattr", "vars", "setattr", "delattr")):
+        return False
+    a1 = call.args[1] if len(call.args) > 1 else None
+    return not (isinstance(a1, ast.Constant) and a1.value != attr)
+
+
+def _loads_attr(cg, fn, attr, seen=None, depth=0):
+    """Does fn (or a method it calls on self) read the attribute `attr` (or reach attributes by name)?"""
+    seen = seen if seen is not None else set()
+    if fn.qual in seen or depth > _MAXD:
+        return False
+    seen.add(fn.qual)
+    for n in func_own_nodes(fn, into_lambda=True):
+        if isinstance(n, ast.Attribute) and n.attr in (attr, "__dict__") and \
+                (isinstance(n.ctx, ast.Load) or _is_aug_target(fn, n)):
+            return True
+        if isinstance(n, ast.Call):
+            if _by_name_access(n, attr):
+                return True
+            if isinstance(n.func, ast.Attribute) and attr_path(n.func.value) == "self":
+                for cal in cg.resolve(fn, n):
+                    if _loads_attr(cg, cal, attr, seen, depth + 1):
+                        return True
+    return False
+
+
+def _is_aug_target(fn, node):
+    return any(isinstance(x, ast.AugAssign) and x.target is node for x in func_own_nodes(fn))
+
+
+def _self_closure(cg, fn, depth=_MAXD):
+    """fn and the methods it reaches by calls on self."""
+    seen, work = {}, [(fn, 0)]
+    while work:
+        f, d = work.pop()
+        if f.qual in seen or d > depth:
+            continue
+        seen[f.qual] = f
+        for n in func_own_nodes(f, into_lambda=True):
+            if isinstance(n, ast.Call) and isinstance(n.func, ast.Attribute) and attr_path(n.func.value) == "self":
+                for cal in cg.resolve(f, n):
+                    work.append((cal, d + 1))
+    return seen
+
+
+def _self_attr_loads(fn):
+    return {n.attr for n in func_own_nodes(fn, into_lambda=True) if isinstance(n, ast.Attribute)
+            and isinstance(n.ctx, ast.Load) and attr_path(n.value) == "self"}
